@@ -166,6 +166,11 @@ class H:
             lines = [p + 'for (int %s = 0; %s < %s; %s += 1) {' % (i, i, self.r.choice(['2', '3', self.x()]), i)]
             self.in_loop = True
             self.vars.append(i)
+            if self.r.random() < 0.5:
+                # an array owned by the loop body: every way of leaving the iteration must release it
+                la = 'la%d' % self.n
+                lines.append(p + '    ' + self.r.choice(['int[] %s = [%s, 4];' % (la, i), 'int %s[2 + %s];' % (la, i), 'byte[] %s = [\'a\', \'b\', \'c\'];' % la, 'bool %s[9];' % la]))
+                lines.append(p + '    write(%s.length);' % la)
             for _ in range(self.r.randrange(1, 3)):
                 lines += self.try_block(ind + 1) if self.r.random() < 0.7 else self.simples(ind + 1, 1, 2)
             self.vars.remove(i)
